@@ -13,6 +13,7 @@ import (
 	"sort"
 	"strconv"
 	"strings"
+	"sync"
 	"time"
 
 	"github.com/prometheus/prometheus/internal/verif/vx"
@@ -235,9 +236,66 @@ func ag_fill(o *ag_Outcome, q string, res *promql.Result) {
 	}
 }
 
+// ---------------------------------------------------------------------------------------------
+// watchdog: an evaluation that does not return cannot be interrupted from outside, so a stuck
+// query is reported as a violation and the process ends (evidence written) instead of hanging
+// the whole check. The limit is four orders of magnitude above the normal evaluation time.
+// ---------------------------------------------------------------------------------------------
+
+type ag_inflight struct {
+	what  string
+	start time.Time
+}
+
+var (
+	ag_watchMu   sync.Mutex
+	ag_watchSeq  int64
+	ag_watchRuns = map[int64]ag_inflight{}
+)
+
+func ag_enter(what string) int64 {
+	ag_watchMu.Lock()
+	ag_watchSeq++
+	id := ag_watchSeq
+	ag_watchRuns[id] = ag_inflight{what, time.Now()}
+	ag_watchMu.Unlock()
+	return id
+}
+
+func ag_leave(id int64) {
+	ag_watchMu.Lock()
+	delete(ag_watchRuns, id)
+	ag_watchMu.Unlock()
+}
+
+// ag_StartWatchdog reports any evaluation running longer than limit as a violation, writes the
+// evidence and exits the process.
+func ag_StartWatchdog(r *vx.Run, limit time.Duration) {
+	go func() {
+		for {
+			time.Sleep(time.Second)
+			ag_watchMu.Lock()
+			stuck := ""
+			for _, f := range ag_watchRuns {
+				if time.Since(f.start) > limit {
+					stuck = f.what
+				}
+			}
+			ag_watchMu.Unlock()
+			if stuck != "" {
+				r.NotExhaustive("an evaluation did not return within " + limit.String())
+				r.Violation("evaluation-did-not-return", fmt.Sprintf("%s: the engine did not return within %s (normal: milliseconds); the check stops here", stuck, limit), map[string]any{"kind": "stuck", "what": stuck})
+				r.Finish()
+				os.Exit(0)
+			}
+		}
+	}()
+}
+
 // ag_Instant evaluates q at ts (milliseconds) through Engine.NewInstantQuery / Exec / Close.
 func ag_Instant(eng *promql.Engine, stor storage.Queryable, q string, tsMs int64) *ag_Outcome {
 	o := &ag_Outcome{}
+	defer ag_leave(ag_enter(fmt.Sprintf("instant query %s at %d", q, tsMs)))
 	p, stack := vx.Guard(func() {
 		qry, err := eng.NewInstantQuery(context.Background(), stor, nil, q, time.UnixMilli(tsMs))
 		if err != nil {
@@ -257,6 +315,7 @@ func ag_Instant(eng *promql.Engine, stor storage.Queryable, q string, tsMs int64
 // ag_Range evaluates q over [start,end] step (milliseconds) through Engine.NewRangeQuery.
 func ag_Range(eng *promql.Engine, stor storage.Queryable, q string, startMs, endMs, stepMs int64) *ag_Outcome {
 	o := &ag_Outcome{}
+	defer ag_leave(ag_enter(fmt.Sprintf("range query %s [%d,%d] step %d", q, startMs, endMs, stepMs)))
 	p, stack := vx.Guard(func() {
 		qry, err := eng.NewRangeQuery(context.Background(), stor, nil, q, time.UnixMilli(startMs), time.UnixMilli(endMs), time.Duration(stepMs)*time.Millisecond)
 		if err != nil {
